@@ -133,3 +133,11 @@ package crdt
 //@   ensures [trust-all-written-as-star] cfg.TrustAll ==> len(res.TrustedPeers) == 1 && res.TrustedPeers[0] == "*"
 //@   ensures [list-written-whole] !cfg.TrustAll ==> len(res.TrustedPeers) == len(cfg.TrustedPeers)
 //@   modifies nothing
+
+// ---- C18: "shutting a component down while it is in use": the shutdown flag is only read and written with the
+// shutdown lock held, so that concurrent Shutdown calls run the teardown once ----
+//@ guards Consensus.shutdownLock: shutdown
+//@ func (css *Consensus) Shutdown
+//@   property C18
+//@   opts own
+//@   modifies *
